@@ -350,7 +350,8 @@ theorem lifted_sites_drop_labels : ∀ s ∈ ContainerSites.sites, s.conv ≠ Co
 theorem lifted_sites_cover :
     ∀ e ∈ ["MetricFrame.__init__", "MetricFrame.sample_params", "_validate_and_reformat_input",
            "ThresholdOptimizer._reformat_data_into_dict", "DemographicParity.load_data", "EqualizedOdds.load_data",
-           "ErrorRate.load_data", "BoundedGroupLoss.load_data", "InterpolatedThresholder._pmf_predict"],
+           "ErrorRate.load_data", "BoundedGroupLoss.load_data", "InterpolatedThresholder._pmf_predict",
+           "UtilityParity.gamma", "ErrorRate.gamma", "BoundedGroupLoss.gamma"],
       ∃ s ∈ ContainerSites.sites, s.entry = e := by decide
 
 /-- `_validate_and_reformat_input` returns a fresh Series: RangeIndex, same payload — whatever came in -/
